@@ -93,6 +93,12 @@ ASSUMPTIONS = [
     "single_connection=True (OperationalError: unable to open database file) -- observed, outside the property",
     "statement semantics is an oracle in the model; equality of results is checked on the real stores only for generated histories",
     "sections are atomic (no await inside a section: checked by the extractor only in so far as the with-blocks contain no await)",
+    "lock layer: what tasks do between their lock requests and releases is abstract in the model (any list of lock actions); "
+    "asyncio.Lock itself (not re-entrant, FIFO hand-over) is modelled, and compared with the real lock on every generated "
+    "schedule; `lockPerStore` is recognised from the source shape (one attribute of self, a cached_property returning a new "
+    "asyncio.Lock() or assigned so in __init__) -- any other shape fails C21_lock_per_store rather than being interpreted",
+    "schedules are compared under the scripted scheduler (single thread, one await-free section at a time, no timers): "
+    "subscribe_events (polling with timeouts) is exercised only in the virtual-time scenario",
 ]
 TRUSTED_EXTRA = [
     "harness/gen/sqlite_conn.py (symbolic execution of the store methods into the lifecycle table)",
@@ -1333,7 +1339,7 @@ def run(env: Env) -> Outcome:
                 out.notes.append("replay of a concurrent scenario: re-drawn from the seed (parameters in the replay file)")
             # schedules over several state stores: corpus first, then generated (drawn after everything else, so the
             # histories above are the same as before for a given seed)
-            for _ in range(env.budget(120, 1500)):
+            for _ in range(env.budget(90, 1500)):
                 sched_cases.append({"label": "generated schedule", "sched": sched.gen_scenario(env.rng)})
             for j, sc_case in enumerate(sched_cases):
                 out.violations += sched_case(sc_case, tmp, j, out, lines, impl)
